@@ -33,6 +33,11 @@ def w_classes(tier: str, max_prefix: int = 3) -> List[dw.W]:
         for p in pats:
             for st in [(), ("a",), ("a", "ab")]:
                 res.append(dw.W(pre, p, "ab", False, st, True))
+    # statistics listed in reverse order (terms are keyed by position)
+    for pre in ("", "a", "b", "ab"):
+        for p in pats:
+            for st in combinations(base, 2):
+                res.append(dw.W(pre, p, "ab", False, st, False, True))
     if tier != "quick":
         for pre in ("", "c", "ac"):
             for p in [("ab",), ("b", "ca"), ("cc", "ab")]:
@@ -48,6 +53,8 @@ def w_strategies(tier: str) -> List[Any]:
         strats.append(dw.Expand(k=1, norm=norm, drop_empty=True))
         strats.append(dw.RemoveFront(norm=norm))
     strats.append(dw.Expand(k=1, norm=True, atom_last=True))
+    strats.append(dw.Expand(k=1, flip=True))
+    strats.append(dw.Expand(k=1, norm=True, flip=True))
     strats.append(dw.RemoveFront(swap=True))
     strats.append(dw.RemoveFront(norm=True, swap=True))
     strats.append(dw.Expand(k=2))
